@@ -63,9 +63,10 @@ class TcpIo(AdapterIo[CommandAdapter]):
                 asynchronous message handler which returns an asynchronous iterable of
                 replies.
         """
-        tasks: List[asyncio.Task] = list()
-
         async def handle(reader: StreamReader, writer: StreamWriter) -> None:
+            # the reply tasks of this connection which have not finished yet
+            tasks: List[asyncio.Task] = list()
+
             async def reply(replies: AsyncIterable[Optional[bytes]]) -> None:
                 async for reply in replies:
                     if reply is None:
@@ -85,6 +86,7 @@ class TcpIo(AdapterIo[CommandAdapter]):
                 addr = writer.get_extra_info("peername")
 
                 LOGGER.debug(f"Received {data!r} from {addr}")
+                tasks[:] = [task for task in tasks if not task.done()]
                 tasks.append(
                     asyncio.create_task(
                         reply(
